@@ -1033,8 +1033,9 @@ func TestC15(t *testing.T) {
 			if r.Thorough() {
 				for pos := 0; pos < count; pos++ {
 					addLeft(count, limit, pos, 0)
-					addLeft(count, limit, pos, 1)
 				}
+
+				addLeft(count, limit, count-1, 1)
 
 				continue
 			}
